@@ -52,14 +52,27 @@ Fixpoint coef_at (aw : list (Z * Z)) (k : Z) : option Z :=
 Definition in_abs_word (aw : list (Z * Z)) (k : Z) : bool :=
   existsb (fun oc => (fst oc =? k) || (fst oc + 1 =? k)) aw.
 
+(* one linear walk over both images; [aw] is sorted by offset and must be used up *)
+Fixpoint law_walk (i1 i2 : list Z) (pos : Z) (aw : list (Z * Z)) (d : Z) : bool :=
+  match i1, i2 with
+  | [], [] => match aw with [] => true | _ => false end
+  | x1 :: r1, x2 :: r2 =>
+      match aw with
+      | (o, c) :: aw' =>
+          if o =? pos then
+            match r1, r2 with
+            | y1 :: r1', y2 :: r2' =>
+                (x2 + 256 * y2 =? (x1 + 256 * y1 + c * d) mod 65536) && law_walk r1' r2' (pos + 2) aw' d
+            | _, _ => false
+            end
+          else (x1 =? x2) && law_walk r1 r2 (pos + 1) aw d
+      | [] => (x1 =? x2) && law_walk r1 r2 (pos + 1) [] d
+      end
+  | _, _ => false
+  end.
+
 Definition law_pair (aw : list (Z * Z)) (b1 : Z) (i1 : list Z) (b2 : Z) (i2 : list Z) : bool :=
-  Nat.eqb (length i1) (length i2) &&
-  forallb (fun n =>
-             let k := Z.of_nat n in
-             match coef_at aw k with
-             | Some c => word_at i2 k =? (word_at i1 k + c * (b2 - b1)) mod 65536
-             | None => if in_abs_word aw k then true else byte_at i2 k =? byte_at i1 k
-             end) (seq 0 (length i1)).
+  law_walk i1 i2 0 aw (b2 - b1).
 
 Fixpoint law_all (aw : list (Z * Z)) (obs : list (Z * observed)) : bool :=
   match obs with
